@@ -112,7 +112,19 @@ def elem_value(cname, k):
 
 def special_value(cname, j):
     """Boundary members of each class: identities, half turns, zero vectors, pure translations."""
-    j = int(j) % 4
+    j = int(j) % 5
+    if j == 4:
+        # a rotation that is valid only within the library's tolerance (residual about 90 eps of
+        # the 100 eps allowed): it must survive being read back, which re-validates it
+        d = 1.4e-14
+        if cname in ('SO2', 'SE2', 'SO3', 'SE3'):
+            n = {'SO2': 2, 'SE2': 3, 'SO3': 3, 'SE3': 4}[cname]
+            T = np.eye(n)
+            T[0, 1] = d
+            if cname in ('SE2', 'SE3'):
+                T[0, -1] = 0.5
+            return T
+        j = 2
     if j == 3:
         # components far below one ulp of 1.0 next to nothing larger: exact values, not round-off
         tiny = {'Quaternion': [1e-15, -2e-15, 0.0, 3e-15], 'Twist2': [1e-15, -2e-15, 3e-15],
@@ -497,9 +509,24 @@ class World:
 
     def op_copy(self, rec):
         x = self.ref(rec['x'])
-        if x is None or (x.cname in NO_COPY and len(x.model) != 1):
-            return {'r': 'skip'}        # spatial vectors: X(x) is only meaningful for one value
-        _, real = self.run_call(lambda: self.K[x.cname](x.real), 'ok', 'copy constructor')
+        if x is None:
+            return {'r': 'skip'}
+        how = rec.get('how', 'ctor')
+        if how == 'deepcopy':
+            import copy as _copy
+            _, real = self.run_call(lambda: _copy.deepcopy(x.real), 'ok', 'copy.deepcopy')
+        elif how == 'pickle':
+            import pickle as _pickle
+            _, real = self.run_call(lambda: _pickle.loads(_pickle.dumps(x.real)), 'ok', 'pickle round trip')
+        elif how == 'pycopy':
+            import copy as _copy
+            _, real = self.run_call(lambda: _copy.copy(x.real), 'ok', 'copy.copy')
+        else:
+            if x.cname in NO_COPY and len(x.model) != 1:
+                return {'r': 'skip'}
+            _, real = self.run_call(lambda: self.K[x.cname](x.real), 'ok', 'copy constructor')
+        if how != 'ctor':
+            self.probe('p_object_from_' + how)
         if real is x.real:
             self.fail('result_value', what='copy constructor returned its argument')
         self.objs.append(self.check_result(real, x.cname, x.model, 'copy'))
@@ -854,7 +881,7 @@ PROBES = ['slice_empty_result', 'slice_negative_step', 'slice_bound_beyond_len',
           'operand_shares_element_with_receiver', 'pop_empty', 'insert_beyond_end',
           'setitem_negative', 'get_negative', 'parent_into_child', 'child_into_parent',
           'rejected_then_accepted', 'alloc_zero', 'from_list_ok', 'special_values',
-          'object_from_class_method', 'slice_numpy_int_bounds', 'reversed_iteration', 'overlapping_iterations', 'mutation_during_iteration', 'op_on_len_ge_10', 'op_on_len_ge_17', 'op_on_len_ge_33',
+          'object_from_class_method', 'object_from_deepcopy', 'object_from_pickle', 'object_from_pycopy', 'slice_numpy_int_bounds', 'reversed_iteration', 'overlapping_iterations', 'mutation_during_iteration', 'op_on_len_ge_10', 'op_on_len_ge_17', 'op_on_len_ge_33',
           'from_list_bad_item_next_to_empty_item', 'extend_by_len_0',
           'extend_by_len_1', 'extend_by_len_2']
 
@@ -962,7 +989,7 @@ def gen_init(cfg, rng):
 def _new_rec(c, n, cfg, rng):
     rec = {'op': 'new', 'cls': c, 'n': n}
     if rng.random() < cfg.get('special_rate', 0.0):
-        rec['special'] = rng.randrange(4)
+        rec['special'] = rng.randrange(5)
     return rec
 
 
@@ -994,7 +1021,8 @@ def gen_step(world, cfg, rng):
         return {'op': 'alloc', 'cls': rng.choice(cfg['classes']),
                 'n': rng.randint(0, 4 * cfg.get('scale', 1))}
     if op == 'copy':
-        return {'op': 'copy', 'x': xi}
+        return {'op': 'copy', 'x': xi, 'how': rng.choice(['ctor', 'ctor', 'ctor', 'deepcopy', 'pickle',
+                                                         'pycopy'])}
     if op == 'iter':
         rec = {'op': op, 'x': xi,
                'mode': rng.choice(['plain', 'plain', 'rev', 'zip', 'nested', 'interleaved', 'during'])}
@@ -1137,6 +1165,8 @@ def nontrivial(ops, log):
 # simplification candidates for the minimiser: smaller / simpler versions of a record
 def simplify(rec):
     out = []
+    if rec.get('how') not in (None, 'ctor'):
+        out.append(dict(rec, how='ctor'))
     if rec.get('mode') not in (None, 'plain'):
         out.append(dict(rec, mode='plain'))
     for key in ('keep', 'npint', 'as', 'rev', 'special', 'npbounds'):
